@@ -260,7 +260,7 @@ Registrar reg(Prop{
     "C06",
     "Cases: (lookup-enum) every sorted, end-marked dictionary over a universe of 8 keys (10 in thorough) x every probe key of the universe plus 8 outside keys x 4 flag variants of the search key, enumerated completely, with a counting type that records type initialisation per entry; "
     "(lookup-random) random dictionaries of 0..400 entries with 4..27 probes each; (typed-enum) every 8-bit value and every 16-bit value (blocks of 2048) and boundary+pseudo-random 32-bit values for each of the 12 entry kinds {8,16,32 bit} x {direct, referenced} x {plain, node-id relative} and node ids {1,2,64,127}, each with wrong-width probes; "
-    "(typed-random) the same with node ids 1..127 and random 32-bit values; (buffer) domains/strings of 1..4000 bytes (boundary-biased around 4,7,255,256,889,1024) with start/continue read/write sequences of lengths 0..4000. Every dictionary array is an exact-size heap block (ASan red zone behind the end marker). "
+    "(typed-random) the same with node ids 1..127 and random 32-bit values; (buffer) domains/strings of 1..4000 bytes (boundary-biased around 4,7,255,256,889,1024) with start/continue read/write sequences of lengths 0..4000, a fifth of the continued accesses asking for (nearly) 2^32-1 bytes into a buffer that holds exactly what is left of the object. Every dictionary array is an exact-size heap block (ASan red zone behind the end marker). "
     "Non-trivial: lookup with a dictionary of >= 2 entries; any typed case (all write non-zero values); buffer case with a length > 255. Distinct = distinct decoded choice sequence.",
     {
         Mode{"lookup-enum", case_lookup_enum, true, 0, 0, 8, 10, 0, 0},
